@@ -26,6 +26,7 @@ SCHED_PROPS = {
     'C14': ((900, 9000), (18, 150)), 'C07': ((450, 4500), (6, 45)), 'C05': ((300, 3000), (3, 30)),
     'C06': ((900, 9000), (18, 150)), 'C12': ((300, 3000), (3, 30)),
     'C10': ((600, 6000), (0, 0)),
+    'C11': ((900, 9000), (12, 90)),
     'C15': ((0, 0), (0, 0)),
 }
 
@@ -59,6 +60,11 @@ class Thread:
         self.pending = {}     # slot -> key: manually polled async acquisitions not yet completed
         self.exps = []        # guards of the running expiry call still to be dropped [(h,k)]
         self.exp_cutoff = 0   # clock value the running expiry call read
+        # lock_all_entries stream owned by the thread: dict(snap=keys that may have been in the snapshot, yielded=keys yielded,
+        # always=snapshot keys that have had a value ever since, blocked=snapshot keys held by one and the same guard ever since)
+        self.stream = None
+        self.sg = []          # guards the stream yielded and the thread still holds: [(n, key)], oldest first
+        self.nsg = 0
 
 
 class SchedOracle:
@@ -75,6 +81,7 @@ class SchedOracle:
         self.fails.append((props, i, msg))
 
     def present(self):
+        """keys that certainly are in the map: valued, or referenced by a guard / an acquisition in progress"""
         ks = set(self.vals)
         ks |= set(self.guards.values())
         for th in self.threads:
@@ -84,8 +91,21 @@ class SchedOracle:
                 ks |= set(th.pending.values())
         return ks
 
-    def awaited(self, k, but=None):
-        """some other thread is blocked on k or has a pending async acquisition on k"""
+    def stream_keys(self, skip=None):
+        """keys an unresolved item of some open stream may refer to. The oracle cannot see an item being resolved silently
+        (its entry had no value when it obtained the lock), so this is an upper bound."""
+        ks = set()
+        for o, oth in enumerate(self.threads):
+            if oth and oth.stream is not None and o != skip:
+                ks |= oth.stream['snap'] - oth.stream['yielded']
+        return ks
+
+    def present_upper(self):
+        return self.present() | self.stream_keys()
+
+    def awaited(self, k, but=None, maybe=True, skip_stream=None):
+        """some other thread is blocked on k or has a pending async acquisition on k; with `maybe`: or an unresolved stream
+        item (of any thread, also `but`) may be queued on / have been handed k"""
         for o, oth in enumerate(self.threads):
             if not oth or o == but:
                 continue
@@ -93,14 +113,88 @@ class SchedOracle:
                 return True
             if k in oth.pending.values():
                 return True
+        if maybe and k in self.stream_keys(skip=skip_stream):
+            return True
         return False
 
-    def held(self, k):
+    def held(self, k, maybe=False):
         """a guard for k is alive, or a thread owns the pre-locked placeholder it just inserted for k (between its lookup
-        section and the moment the lock call returns the guard)"""
+        section and the moment the lock call returns the guard). `prelocked` is None when the oracle cannot know whether the key
+        was in the map (only a stream item may have referenced it): counted only with `maybe`."""
         if k in self.guards.values():
             return True
-        return any(th and th.park == 'key' and th.prelocked and th.cur and th.cur['key'] == k for th in self.threads)
+        for th in self.threads:
+            if th and th.park == 'key' and th.cur and th.cur['key'] == k:
+                if th.prelocked or (maybe and th.prelocked is None):
+                    return True
+        return False
+
+    def value_removed(self, k):
+        for th in self.threads:
+            if th and th.stream is not None:
+                th.stream['always'].discard(k)
+
+    def guard_released(self, k):
+        for th in self.threads:
+            if th and th.stream is not None:
+                th.stream['blocked'].discard(k)
+
+    def expect_skip(self, t, th, evs, i, what):
+        ev = evs.pop(0) if evs else None
+        if ev != 'skip':
+            self.fail(['C05'], i, f'thread {t}: expected skip for {what}, got {ev}')
+
+    def stream_event(self, t, th, ev, i):
+        """a completion event of `snext`"""
+        st = th.stream
+        if ev.startswith('item='):
+            k = int(ev[5:])
+            if k not in st['snap']:
+                self.fail(['C11'], i, f'thread {t}: the stream yielded key {k}, which was neither valued nor in use when the stream was created')
+            if k in st['yielded']:
+                self.fail(['C11'], i, f'thread {t}: the stream yielded key {k} twice')
+            if k not in self.vals:
+                self.fail(['C11'], i, f'thread {t}: the stream yielded a guard for key {k}, which has no value')
+            if self.held(k):
+                self.fail(['C01', 'C11'], i, f'thread {t}: the stream yielded a guard for key {k} while another guard for it is alive')
+            st['yielded'].add(k)
+            n = th.nsg
+            th.nsg += 1
+            th.sg.append((n, k))
+            self.guards[(t, 'sg', n)] = k
+        elif ev == 'snext=end':
+            miss = sorted(st['always'] - st['yielded'])
+            if miss:
+                self.fail(['C11'], i, f'thread {t}: the stream ended without yielding {miss}, which have had a value ever since it was created')
+            stuck = sorted(st['blocked'] - st['yielded'])
+            if stuck:
+                self.fail(['C11'], i, f'thread {t}: the stream ended while its items for {stuck} still wait for a guard that was never dropped')
+        elif ev == 'snext=pending':
+            left = st['snap'] - st['yielded']
+            if not any(self.held(k, maybe=True) or self.awaited(k, skip_stream=t) for k in left):
+                self.fail(['C03', 'C11'], i, f'thread {t}: the stream is pending although none of its remaining keys {sorted(left)} is held or awaited by anybody')
+        else:
+            self.fail(['C05'], i, f'thread {t}: unexpected {ev} for snext')
+
+    def snext_progress(self, t, th, evs, i):
+        """-> the `snext` statement is complete"""
+        if evs and (evs[0].startswith('item=') or evs[0].startswith('snext=')):
+            self.stream_event(t, th, evs.pop(0), i)
+            return True
+        return False
+
+    def sclose_progress(self, t, th, evs, i):
+        if evs and evs[0] == 'sclosed':
+            evs.pop(0)
+            th.stream = None
+            return True
+        return False
+
+    def drop_stream_guard(self, t, th):
+        (n, k) = th.sg.pop(0)
+        th.park = 'release'
+        th.releasing = (k, ('sg', n))
+        self.begin_release(k)
 
     # advance thread through hook-free statements
     def advance(self, t, th, evs, i):
@@ -117,6 +211,13 @@ class SchedOracle:
                         th.park = 'cancel'
                         th.cancelling = slot
                     return
+                if th.sg:
+                    self.drop_stream_guard(t, th)
+                    return
+                if th.stream is not None:
+                    if not self.sclose_progress(t, th, evs, i):
+                        th.park = 'sclose_end'
+                        return
                 th.park = 'D'
                 return
             st = th.stmts[th.pc]
@@ -156,7 +257,7 @@ class SchedOracle:
                     th.slots[slot] = k
                     self.guards[(t, 'slot', slot)] = k
                 elif ev == f'poll{slot}=pending':
-                    if not self.held(k) and not self.awaited(k, but=t) and list(th.pending.values()).count(k) == 1:
+                    if not self.held(k, maybe=True) and not self.awaited(k, but=t) and list(th.pending.values()).count(k) == 1:
                         self.fail(['C03', 'C14'], i, f'thread {t}: lost wake-up: key {k} is free, {t} is the only waiter, still pending')
                 else:
                     self.fail(['C05'], i, f'thread {t}: unexpected {ev} for apoll')
@@ -202,6 +303,38 @@ class SchedOracle:
                 th.pc += 1
                 th.park = st[0]
                 return
+            if st[0] in ('sopen', 'sopeno'):
+                th.pc += 1
+                if th.stream is not None:
+                    self.expect_skip(t, th, evs, i, 'sopen')
+                    continue
+                th.park = 'sopen'
+                return
+            if st[0] == 'snext':
+                th.pc += 1
+                if th.stream is None:
+                    self.expect_skip(t, th, evs, i, 'snext')
+                    continue
+                if self.snext_progress(t, th, evs, i):
+                    continue
+                th.park = 'snext'
+                return
+            if st[0] == 'sdropg':
+                th.pc += 1
+                if not th.sg:
+                    self.expect_skip(t, th, evs, i, 'sdropg')
+                    continue
+                self.drop_stream_guard(t, th)
+                return
+            if st[0] == 'sclose':
+                th.pc += 1
+                if th.stream is None:
+                    self.expect_skip(t, th, evs, i, 'sclose')
+                    continue
+                if self.sclose_progress(t, th, evs, i):
+                    continue
+                th.park = 'sclose'
+                return
             raise ValueError(st)
 
     def begin_release(self, k):
@@ -236,6 +369,7 @@ class SchedOracle:
             return str(self.vals[k])
         if o == 'remove':
             self.vals.pop(k, None)
+            self.value_removed(k)
             return cs
         if o == 'key':
             return str(k)
@@ -260,6 +394,7 @@ class SchedOracle:
         if th.cands:
             (h, k) = th.cands.pop(0)
             self.vals.pop(k, None)          # cooperative callback: remove()
+            self.value_removed(k)
             th.park = 'release'
             th.releasing = (k, ('cand', h))
             self.begin_release(k)
@@ -278,7 +413,7 @@ class SchedOracle:
 
     def step(self, t, res, statuses, i):
         th = self.threads[t]
-        evs = [] if res == '-' else re.split(r',(?=lock\d+=|poll\d+=|op\d+=|count=|keys=|ev=|exp=|skip|panic:|upanic|poisoned)', res)
+        evs = [] if res == '-' else re.split(r',(?=lock\d+=|poll\d+=|op\d+=|count=|keys=|ev=|exp=|skip|sopen|item=|snext=|sclosed|panic:|upanic|poisoned)', res)
         if any(e.startswith('panic:') or e == 'poisoned' for e in evs):
             self.fail(['C13'], i, f'thread {t}: library panic {evs}')
             th.park = 'D'
@@ -290,7 +425,7 @@ class SchedOracle:
             if evs and evs[0].startswith('ev='):
                 ev = evs.pop(0)
                 cands = [tuple(int(x) for x in p.split(':')) for p in ev[3:].split(',')]
-                n_present = len(self.present())
+                n_present = len(self.present_upper())
                 if c['limit'] is None:
                     self.fail(['C07'], i, 'callback without limit')
                 else:
@@ -310,7 +445,7 @@ class SchedOracle:
                 th.cands = cands
                 self.next_cand(t, th)
             else:
-                th.prelocked = c['key'] not in self.present()
+                th.prelocked = (False if c['key'] in self.present() else None if c['key'] in self.present_upper() else True)
                 th.handle_key = c['key']
                 th.park = 'key'
         elif th.park == 'expire':
@@ -322,10 +457,13 @@ class SchedOracle:
             got = [] if ev[4:] == '-' else [tuple(int(x) for x in p.split(':')) for p in ev[4:].split(',')]
             # d = 0: exactly the entries that have a value, whose mutex is free (no guard, not handed to a waiter) and that were
             # last unlocked at or before the moment the expiring thread read the clock
-            want = set(k for k in self.vals if not self.held(k) and not self.awaited(k)
+            want = set(k for k in self.vals if not self.held(k, maybe=True) and not self.awaited(k)
                        and self.stamp.get(k, 0) <= th.exp_cutoff)
+            # with streams around the oracle only has bounds: an unresolved item may or may not own the mutex
+            want_upper = set(k for k in self.vals if not self.held(k) and not self.awaited(k, maybe=False)
+                             and self.stamp.get(k, 0) <= th.exp_cutoff)
             gk = [k for _, k in got]
-            if len(set(gk)) != len(gk) or set(gk) != want:
+            if len(set(gk)) != len(gk) or not (want <= set(gk) <= want_upper):
                 self.fail(['C10'], i, f'thread {t}: expiry(0) with the clock read at {th.exp_cutoff} returned guards for {gk}, exactly '
                                       f'{sorted(want)} are unlocked, have a value and were last unlocked by then (stamps {self.stamp})')
             for (h, k) in got:
@@ -339,7 +477,7 @@ class SchedOracle:
             st = statuses.get(t)
             if c.get('poll') and evs and evs[0] == f"lock{c['slot']}=pending":
                 evs.pop(0)
-                if not self.held(c['key']) and not self.awaited(c['key'], but=t):
+                if not self.held(c['key'], maybe=True) and not self.awaited(c['key'], but=t):
                     self.fail(['C03', 'C14'], i, f'thread {t}: async lock of key {c["key"]} is pending although nobody holds or awaits it')
                 th.pending[c['slot']] = c['key']
                 th.handle_key = None
@@ -351,7 +489,7 @@ class SchedOracle:
             elif st in ('B', 'W'):
                 if c['trying']:
                     self.fail(['C03', 'C05'], i, f'thread {t}: a try variant waits')
-                if not self.held(c['key']) and st == 'B':
+                if not self.held(c['key'], maybe=True) and st == 'B':
                     # nobody holds the key, yet the thread sleeps: only legal if a waiter in front of it was handed the lock
                     if not self.awaited(c['key'], but=t):
                         self.fail(['C03', 'C14'], i, f'thread {t} blocks on key {c["key"]} which nobody holds or awaits')
@@ -359,7 +497,7 @@ class SchedOracle:
             elif st == 'G':
                 if not c['trying']:
                     self.fail(['C05'], i, f'thread {t}: waiting variant went to a clean-up section')
-                if not self.held(c['key']) and not self.awaited(c['key'], but=t):
+                if not self.held(c['key'], maybe=True) and not self.awaited(c['key'], but=t):
                     self.fail(['C05', 'C14', 'C03'], i, f'thread {t}: try on key {c["key"]} failed although nobody holds or awaits it')
                 th.park = 'cleanup'
             else:
@@ -377,9 +515,26 @@ class SchedOracle:
             th.handle_key = None
             th.cur = None
             self.advance(t, th, evs, i)
+        elif th.park == 'sopen':
+            ev = evs.pop(0) if evs else None
+            if ev != 'sopen':
+                self.fail(['C05'], i, f'thread {t}: expected sopen, got {ev}')
+            th.stream = dict(snap=set(self.present_upper()), yielded=set(), always=set(self.vals),
+                             blocked=set(k for k in self.guards.values()))
+            self.advance(t, th, evs, i)
+        elif th.park == 'snext':
+            if self.snext_progress(t, th, evs, i):
+                self.advance(t, th, evs, i)
+        elif th.park in ('sclose', 'sclose_end'):
+            if self.sclose_progress(t, th, evs, i):
+                if th.park == 'sclose_end':
+                    th.park = 'D'
+                else:
+                    self.advance(t, th, evs, i)
         elif th.park == 'release':
             k, ident = th.releasing
             self.guards.pop((t,) + ident, None)
+            self.guard_released(k)
             th.releasing = None
             if ident[0] == 'cand':
                 self.next_cand(t, th)
@@ -394,14 +549,18 @@ class SchedOracle:
         elif th.park in ('count', 'keys'):
             ev = evs.pop(0) if evs else ''
             pres = self.present()
+            upper = self.present_upper()
             if th.park == 'count':
-                if ev != f'count={len(pres)}':
-                    self.fail(['C04', 'C14'], i, f'thread {t}: {ev} but {sorted(pres)} are valued or in use')
+                m = re.match(r'count=(\d+)$', ev)
+                if not m or not (len(pres) <= int(m.group(1)) <= len(upper)):
+                    self.fail(['C04', 'C14'], i, f'thread {t}: {ev} but {sorted(pres)} are valued or in use'
+                              + (f' (and at most {sorted(upper - pres)} are referenced by stream items)' if upper != pres else ''))
             else:
                 got = ev[5:] if ev.startswith('keys=') else '?'
                 gs = set() if got == '-' else set(int(x) for x in got.split(',') if x != '?')
-                if gs != pres:
-                    self.fail(['C04', 'C14'], i, f'thread {t}: {ev} but {sorted(pres)} are valued or in use')
+                if not (pres <= gs <= upper):
+                    self.fail(['C04', 'C14'], i, f'thread {t}: {ev} but {sorted(pres)} are valued or in use'
+                              + (f' (and at most {sorted(upper - pres)} are referenced by stream items)' if upper != pres else ''))
             self.advance(t, th, evs, i)
         if evs:
             self.fail(['C05'], i, f'thread {t}: unexplained events {evs}')
@@ -492,6 +651,8 @@ def check_sched_case(lines):
             flags['failed_try'] = True
         if 'ev=' in body:
             flags['evict'] = True
+        if 'item=' in body or 'snext=pending' in body:
+            flags['stream'] = True
         try:
             orc.step(t, body, statuses, i)
         except Exception as e:  # oracle cannot follow
@@ -508,8 +669,11 @@ def check_sched_case(lines):
                 ents = [x.split(':') for x in body_s.split(' ')] if body_s else []
                 keys = set(int(e[0]) for e in ents)
                 pres = orc.present()
-                if keys != pres:
-                    orc.fail(['C04', 'C14', 'C06'], i, f'after `{q}`: keys {sorted(keys)} but valued ∪ in-use = {sorted(pres)}')
+                upper = orc.present_upper()
+                if not (pres <= keys <= upper):
+                    orc.fail(['C04', 'C14', 'C06', 'C11'] if upper != pres else ['C04', 'C14', 'C06'], i,
+                             f'after `{q}`: keys {sorted(keys)} but valued ∪ in-use = {sorted(pres)}'
+                             + (f' (and at most {sorted(upper - pres)} are referenced by stream items)' if upper != pres else ''))
                 for e in ents:
                     k = int(e[0])
                     if e[2] == 'U' and e[1] != '?':
@@ -579,7 +743,7 @@ def run_one(cmd, tag, work, timeout):
         res['steps'] += sum(1 for q, _ in case if q.startswith('step'))
         for props, j, msg in fails:
             res['fails'].append(dict(kind='sched', props=props, line=j, msg=msg, history=[x[0] for x in case[:j + 1]], no_min=True))
-        if flags['switches'] >= 2 and (flags['blocked'] or flags['failed_try'] or flags['evict']):
+        if flags['switches'] >= 2 and (flags['blocked'] or flags['failed_try'] or flags['evict'] or flags.get('stream')):
             res['nontrivial'].add(hashlib.sha1('\n'.join(q for q, _ in case).encode()).hexdigest()[:16])
     if hung and len(reps) < len(reqs):
         res['fails'].append(dict(kind='sched', props=['C03', 'C13'], line=0, msg='scheduled harness hung', history=reqs[max(0, len(reps) - 30):len(reps) + 1], no_min=True))
@@ -601,15 +765,20 @@ def run(pid, tier, seed, work):
     ncases = gq if tier == 'quick' else gt
     nsets = dq if tier == 'quick' else dt
     jobs = []
-    kinds = ['pool'] if pid == 'C14' else (['lru'] if pid == 'C10' else ['lru', 'hashmap', 'pool'])
-    profile = 'limit' if pid in ('C07', 'C08') else ('cancel' if pid in ('C06', 'C13', 'C04', 'C12') else 'mixed')
+    kinds = ['pool'] if pid == 'C14' else (['lru'] if pid == 'C10' else ['lru', 'hashmap'] if pid == 'C11' else ['lru', 'hashmap', 'pool'])
+    profile = 'limit' if pid in ('C07', 'C08') else ('cancel' if pid in ('C06', 'C13', 'C04', 'C12') else 'stream' if pid == 'C11' else 'mixed')
     sd = int(hashlib.sha256(f'{seed}/{pid}/sched'.encode()).hexdigest()[:8], 16)
     if ncases:
         per = max(1, ncases // len(kinds))
         for k in kinds:
             prof = profile if (k != 'pool' or profile == 'cancel') else 'pool'
-            jobs.append((['sgen', '--seed', str(sd), '--cases', str(per), '--kind', k, '--threads', '0', '--stmts', '5',
+            jobs.append((['sgen', '--seed', str(sd), '--cases', str(per), '--kind', k, '--threads', '0', '--stmts', '8' if prof == 'stream' else '5',
                           '--profile', prof], f'sg_{k}'))
+            if pid in ('C01', 'C03', 'C04', 'C06') and k != 'pool':
+                # threads that own a lock_all_entries stream next to ordinary lockers: items queued behind guards, woken by
+                # other threads' releases, cancelled when the stream is dropped
+                jobs.append((['sgen', '--seed', str(sd + 3), '--cases', str(max(1, per // 3)), '--kind', k, '--threads', '0', '--stmts', '8',
+                              '--profile', 'stream'], f'sgs_{k}'))
             if profile != 'cancel' and pid in ('C01', 'C02', 'C03', 'C14'):
                 # abandoned acquisitions next to live ones: the deep mutual-exclusion failures need them (seeded C01_A/B)
                 for j in range(3 if pid == 'C01' else 1):
@@ -624,7 +793,7 @@ def run(pid, tier, seed, work):
     if nsets:
         for k in kinds:
             jobs.append((['sdfs-gen', '--seed', str(sd + 1), '--count', str(max(1, nsets // len(kinds))), '--kind', k,
-                          '--max-schedules', '400' if tier == 'quick' else '3000'], f'sd_{k}'))
+                          '--max-schedules', '400' if tier == 'quick' else '3000'] + (['--streams', '60'] if pid == 'C11' else []), f'sd_{k}'))
     import concurrent.futures as cf
     results = []
     with cf.ThreadPoolExecutor(max_workers=14) as ex:
@@ -636,7 +805,7 @@ def run(pid, tier, seed, work):
     info = dict(schedules=sum(r['cases'] for r in results), steps=sum(r['steps'] for r in results),
                 disagreements=len(dis), oracle_failures=len(fails),
                 distinct_nontrivial=len(set().union(*[r['nontrivial'] for r in results])) if results else 0,
-                nontrivial_rule='scheduled case with >= 2 context switches and a blocked thread, a failed try or an eviction',
+                nontrivial_rule='scheduled case with >= 2 context switches and a blocked thread, a failed try, an eviction or a stream that yielded / was pending',
                 runs=[dict(tag=r['tag'], cases=r['cases'], steps=r['steps'], ok=r['ok'],
                            stats={k: v for k, v in (r['stats'] or {}).items() if isinstance(v, (int, float, bool))}) for r in results])
     out = dict(ok=not dis and all(r['ok'] for r in results), fails=fails, info=info,
